@@ -176,6 +176,34 @@ func runC18(run *Run, seed int64, l c18List, carriers []string, reclaim time.Dur
 		raw := BuildPacket(rig.PCfg, msg, rig.Rng)
 		rig.C.Net.Inject(rig.V.EP, fromAddr, raw)
 	}
+	// while the table is still tiny (the node itself and one peer): disallowed claims through every carrier
+	for ei, car := range carriers {
+		for _, class := range []string{"out4", "mapped-out", "len3"} {
+			addr := l.addrOf(class)
+			if oracle.allowed(addr) {
+				continue
+			}
+			name := fmt.Sprintf("early-%d-%s", ei, class)
+			switch car {
+			case "packet", "compound", "compress":
+				sendAlive(x, x.EP.Addr, car, name, addr, claimInc)
+			case "pp", "ppjoin":
+				entry := WPushNodeState{Name: name, Addr: addr, Port: 7946, Meta: []byte("m"), Incarnation: claimInc, State: SAlive, Vsn: DefaultVsn()}
+				if _, _, err := x.PushPull(car == "ppjoin", []WPushNodeState{x.Self(1), entry}, nil); err != nil {
+					fail("harness/pp", "%v", err)
+					return
+				}
+			default:
+				continue
+			}
+			Settle(20 * time.Microsecond)
+			run.Eval(1)
+			run.Cell(l.Name, "early-small-table", class, car)
+			if !checkAll("early/" + class + "/" + car) {
+				return
+			}
+		}
+	}
 	n := 0
 	stepN := 0
 	priors := []string{"absent", "alive", "suspect", "dead-old", "left"}
